@@ -56,6 +56,10 @@ func main() {
 				fmt.Println(err)
 				os.Exit(2)
 			}
+			if args[i+1] == "div" {
+				rules.DumpDiv(p, args[i+2])
+				os.Exit(0)
+			}
 			rules.Dump(p, args[i+1], args[i+2], args[i+3], args[i+4])
 			os.Exit(0)
 		case "--list":
